@@ -93,6 +93,7 @@ impl Source {
         self.0.get("Uploaders").map(|s| {
             s.split(',')
                 .map(|s| s.trim().to_string())
+                .filter(|s| !s.is_empty())
                 .collect::<Vec<String>>()
         })
     }
@@ -697,7 +698,12 @@ impl Package {
     pub fn tags(&self, tag: &str) -> Option<Vec<String>> {
         self.0
             .get(tag)
-            .map(|s| s.split(',').map(|s| s.trim().to_string()).collect())
+            .map(|s| {
+                s.split(',')
+                    .map(|s| s.trim().to_string())
+                    .filter(|s| !s.is_empty())
+                    .collect()
+            })
     }
 
     /// Set the tags of the package.
